@@ -29,5 +29,5 @@ pub fn strategy() -> BoxedStrategy<Case> {
 }
 
 pub fn plan(tier: Tier) -> Plan<Case> {
-    Plan { strategy: strategy(), check, shrink_iters: 300, cases: match tier { Tier::Quick => 3_000, Tier::Thorough => 150_000 } }
+    Plan { strategy: strategy(), check, shrink_iters: 300, decode_bytes: None, cases: match tier { Tier::Quick => 3_000, Tier::Thorough => 150_000 } }
 }
